@@ -1,7 +1,8 @@
 -------------------------- MODULE CmdTemplate_Gen --------------------------
 (* Case generator for C25.                                                  *)
-(*  Mode "enum": one initial state per (element sequence of length Length,  *)
-(*               value pattern); exhaustive over the chosen menu (sharded). *)
+(*  Mode "enum": one initial state per (element sequence of LenLo..LenHi     *)
+(*               elements, value pattern); exhaustive over the chosen menu  *)
+(*               (sharded).                                                 *)
 (*  Mode "walk": the grammar as a state machine -- a template grows by one  *)
 (*               element per step; used with `-simulate` to sample          *)
 (*               templates of MinEmit..MaxLen elements from the full menu.  *)
@@ -10,7 +11,7 @@
 EXTENDS CmdTemplate, Json, SequencesExt
 CONSTANTS Mode,        \* "enum" | "walk"
           MenuName,    \* "full" | "core" | "mixed" (position 1 from the full menu, rest core)
-          Length,      \* enum: number of elements
+          LenLo, LenHi,      \* enum: numbers of elements (sequences of < 2 elements are never sharded)
           MinEmit, MaxLen,   \* walk: emit states with MinEmit..MaxLen elements
           Shard, NShards
 
@@ -31,11 +32,17 @@ IsSet(p, i) == CASE p = "min" -> FALSE [] p = "max" -> TRUE [] p = "odd" -> i % 
 RECURSIVE Mix(_, _)
 Mix(ix, i) == IF i > Len(ix) THEN 0 ELSE (ix[i] * (2 * i + 5) + Mix(ix, i + 1)) % 1000003
 
-IndexSeqs == { ix \in [1..Length -> 1..N] : (\A i \in 1..Length : ix[i] <= NAt(i)) /\ Mix(ix, 1) % NShards = Shard }
+(* index sequences of length L (position i ranges over 1..NAt(i)), restricted to this shard *)
+AllIndexSeqs(L) ==
+  IF MenuName = "mixed" /\ L >= 2
+  THEN { <<a>> \o r : a \in 1..N, r \in [1..(L - 1) -> 1..Len(Core)] }
+  ELSE [1..L -> 1..N]
+IndexSeqs(L) == { ix \in AllIndexSeqs(L) : L < 2 \/ Mix(ix, 1) % NShards = Shard }
 
 Init == IF Mode = "enum"
-        THEN /\ \E ix \in IndexSeqs : seq = [i \in 1..Length |-> At(i, ix[i])]
-             /\ pat \in Patterns(Length)
+        THEN \E L \in LenLo..LenHi :
+               /\ \E ix \in IndexSeqs(L) : seq = [i \in 1..L |-> At(i, ix[i])]
+               /\ pat \in Patterns(L)
         ELSE /\ seq = <<>>
              /\ pat \in Patterns(2)
 
@@ -46,7 +53,7 @@ Next == IF Mode = "enum" THEN FALSE /\ UNCHANGED vars
 
 (* one- or two-word executable, tied to the pattern so that both occur everywhere *)
 Exec == IF pat \in {"max", "even"} THEN <<"vdump", "sub">> ELSE <<"vdump">>
-Vals == [i \in 1..Len(seq) |-> Supplied(seq[i], IsSet(pat, i))]
+Vals == [i \in 1..Len(seq) |-> Supplied(seq[i], FieldNames[i], IsSet(pat, i))]
 
 Case ==
   [ tpl     |-> TemplateText(Exec, seq),
@@ -64,7 +71,7 @@ Emits == Mode = "enum" \/ (Len(seq) >= MinEmit /\ Len(seq) <= MaxLen)
 Emit  == IF Emits THEN PrintT(ToJson(Case)) ELSE TRUE
 
 (* spec-level sanity theorems, evaluated on every enumerated case *)
-NoneSet  == [i \in 1..Len(seq) |-> Supplied(seq[i], FALSE)]
+NoneSet  == [i \in 1..Len(seq) |-> Supplied(seq[i], FieldNames[i], FALSE)]
 IsPrefix_(a, b) == Len(a) <= Len(b) /\ SubSeq(b, 1, Len(a)) = a
 Theorems ==
   LET fs == [i \in 1..Len(seq) |-> Field(seq[i], FieldNames[i], i)] IN
